@@ -138,7 +138,10 @@ def unit(rng, kind):
     raise ValueError(kind)
 
 
-PROBE = [("d", frame(1, b"P|1", True)), ("d", EOT), ("d", ENQ), ("d", frame(2, b"L|1|N", True)), ("d", EOT)]
+# probe suffix that makes the final state observable: in an idle state ENQ is ACKed and any leftover of
+# an earlier transfer would show up in the delivery; in an open transfer ENQ is NAKed and EOT delivers
+# everything that was pending
+PROBE = [("d", ENQ), ("d", frame(1, b"P|1", True)), ("d", EOT), ("d", ENQ), ("d", frame(2, b"L|1|N", True)), ("d", EOT)]
 
 
 def is_vendor_line(d):
